@@ -467,7 +467,7 @@ func (k Keeper) CollectPerpRevenue(ctx sdk.Context, baseCurrency string) (sdk.De
 	// Send coins to fee collector name
 	if perpFeesForStakersDec.IsAllPositive() {
 		// The distribution module picks from ccvconsumertypes.ConsumerRedistributeName
-		err = k.bankKeeper.SendCoinsFromModuleToModule(ctx, types.ModuleName, ccvconsumertypes.ConsumerRedistributeName, stakerCoins)
+		err = k.bankKeeper.SendCoinsFromAccountToModule(ctx, fundAddr, ccvconsumertypes.ConsumerRedistributeName, stakerCoins)
 		if err != nil {
 			return sdk.DecCoins{}, err
 		}
@@ -485,7 +485,7 @@ func (k Keeper) CollectPerpRevenue(ctx sdk.Context, baseCurrency string) (sdk.De
 		consumerPortion := protocolGasFeeCoins.Sub(providerPortion...)
 
 		// This will be sent to provider
-		err = k.bankKeeper.SendCoinsFromModuleToModule(ctx, types.ModuleName, ccvconsumertypes.ConsumerToSendToProviderName, providerPortion)
+		err = k.bankKeeper.SendCoinsFromAccountToModule(ctx, fundAddr, ccvconsumertypes.ConsumerToSendToProviderName, providerPortion)
 		if err != nil {
 			return sdk.DecCoins{}, err
 		}
